@@ -82,6 +82,7 @@ class Sim(object):
         self._prio = {}
         self._pct_points = None
         self.time_jump_p = 0.0
+        self.max_jump = 0.05
         self.aborting = False
         self.dead = False
         self._line_codes = []
@@ -268,7 +269,7 @@ class Sim(object):
                 cands.insert(0, last)
             n = len(cands) + (1 if due else 0)
             jump = False
-            if (not due) and self.time_jump_p and (ev or next_deadline is not None):
+            if (not due) and self.time_jump_p and ev and ev[0][0] - now <= self.max_jump:
                 # optionally let virtual time pass although threads are runnable (a slow CPU)
                 n += 1
                 jump = True
@@ -292,10 +293,9 @@ class Sim(object):
                 self.rec('env', e[3])
                 e[2]()
             else:
-                nxt = next_deadline
-                if ev and (nxt is None or ev[0][0] < nxt):
-                    nxt = ev[0][0]
-                if nxt is not None and nxt <= self.horizon:
+                # a "slow CPU" step: let the next network event become due although threads are runnable
+                nxt = ev[0][0]
+                if next_deadline is None or nxt <= next_deadline:
                     self.now = nxt
                     self.rec('timejump', '')
             for m in self.monitors:
